@@ -9,12 +9,14 @@ so the effect of a command list is determined per slot by the last command on th
 interleaving with other slots, and two levels with the same map have the same lines.  Together with
 C08 (the sort keeps the removal of a slot before its re-creation and only permutes) this is the
 algebra convergence rests on.  The end-to-end statement `applyCmds (cmdPaths (patch old new)) old ≃ new`
-is decided on every generated case by the correspondence check and the simulator oracle, not by a
-theorem (status: partial).  The full-strength statement is false of the code for the logics that
+is PROVED for flat configurations over the default/undo_redo logics (`C01_flat_converges`, stage 1); for
+nested blocks, `%ordered`/`%rewrite` rules and chains it is decided on every generated case by the
+correspondence check and the simulator oracle, not by a theorem (status: partial).  The full-strength statement is false of the code for the logics that
 deliberately emit nothing (`permanent`, `ignore_changes`) and in the corner cases F01c–F01g; the two
 by-design ones are kernel-checked witnesses below.
 -/
 import AnnetModel.Lemmas.Device
+import AnnetModel.Lemmas.Converge
 
 /-! OBLIGATIONS
 Annet.Device.C01_put_refines
@@ -24,6 +26,8 @@ Annet.Device.C01_put_keeps_same_line
 Annet.Device.C01_leaf_preserves_others
 Annet.Device.C01_same_map_same_lines
 Annet.Device.C01_cmds_refine
+Annet.Device.C01_flat_converges
+Annet.Device.C01_flat_converges_lines
 Annet.Device.C01_full_false_permanent
 Annet.Device.C01_full_false_ignore_changes
 Annet.Device.C01_flat_default_witness_converges
@@ -107,6 +111,40 @@ theorem C01_cmds_refine (env : Env) (rules : PRules) (cs : List (String × Cmd))
     have hf : holder rules (execLeaf env rules c kids) = absStep rules (holder rules kids) cmd := funext step.2
     refine ⟨this.1, fun s => ?_⟩
     rw [List.foldl_cons, List.foldl_cons, this.2 s, hf]
+
+/-! ### end-to-end convergence, stage 1: flat configurations
+
+For a one-level rulebook over the `default` / `undo_redo` logics (pairwise distinct rule texts), ANY
+ordering rulebook without `%order_reverse` pins, a vendor whose removal commands the device understands
+(`CmdsOK`: C07's reverse round trip, stated as what the proof needs), and flat configurations whose lines
+all instantiate rules with one line per (rule, key): executing the commands of the patch annet's
+pipeline computes (`make_diff → make_pre → logic functions → get_order → sort`), in the emitted order,
+on `old` yields exactly the lines of `new` (as a set: the map slot ↦ line is `new`'s).  1850 lines of
+proof in `Lemmas/Converge.lean`; hypotheses in `Spec/Converge.lean`, two of them (`distinct rule texts`,
+`exitKnown`) forced by counterexamples found while proving. -/
+
+theorem C01_flat_converges (v : Vendor) (env : Env) (rules : PRules) (ordering : List ORule) (old new : Cfg)
+    (r : Api.Result)
+    (hfr : Converge.FlatRules rules) (hfo : Converge.FlatCfg old) (hfn : Converge.FlatCfg new)
+    (hko : Converge.AllKnown rules old) (hkn : Converge.AllKnown rules new)
+    (hwo : WF rules old.kids) (hwn : WF rules new.kids)
+    (hc : Converge.CmdsOK v env rules) (hp : Converge.NoPin ordering)
+    (hr : Api.deviceMode Patch.runLogic v rules ordering true old new = .ok r) :
+    WF rules (applyCmds env rules (flatPaths r.patch) old).kids ∧
+    ∀ s, holder rules (applyCmds env rules (flatPaths r.patch) old).kids s = holder rules new.kids s :=
+  Converge.Lemmas.flat_converges v env rules ordering old new r hfr hfo hfn hko hkn hwo hwn hc hp hr
+
+/-- … hence the device holds exactly the lines of `new`, up to their order. -/
+theorem C01_flat_converges_lines (v : Vendor) (env : Env) (rules : PRules) (ordering : List ORule) (old new : Cfg)
+    (r : Api.Result)
+    (hfr : Converge.FlatRules rules) (hfo : Converge.FlatCfg old) (hfn : Converge.FlatCfg new)
+    (hko : Converge.AllKnown rules old) (hkn : Converge.AllKnown rules new)
+    (hwo : WF rules old.kids) (hwn : WF rules new.kids)
+    (hc : Converge.CmdsOK v env rules) (hp : Converge.NoPin ordering)
+    (hr : Api.deviceMode Patch.runLogic v rules ordering true old new = .ok r) :
+    (rowsOf (applyCmds env rules (flatPaths r.patch) old)).Perm (rowsOf new) := by
+  have h := C01_flat_converges v env rules ordering old new r hfr hfo hfn hko hkn hwo hwn hc hp hr
+  exact Lemmas.same_map_perm rules _ _ h.1 hwn h.2
 
 /-! ### the full-strength statement is false by design for `permanent` and `ignore_changes` -/
 
